@@ -20,6 +20,7 @@ EXPLANATION = ("Table-agreement and wiring rules over ProcessTasks (producer of 
                "emitted tags/positions/'_packed' agree with all readers, rows are packed one cell per (row,key) in row "
                "order and numbered range(1,N+1), and the file and in-memory paths share encode/decode.")
 EXPLANATION += ' R1 also: key order is kept (sort_keys off); R4 also: sink and source choose gzip by the same predicate; R5: params are normalised one level only (top-level list -> tuple).'
+EXPLANATION += ' R5 also: packed interaction columns are converted cell by cell; R6: Table.insert keeps the table rectangular (pad counts by provenance); R7: minimize rounds finite floats only.'
 
 EXP = "coba/experiments/core.py"
 PROC = "coba/experiments/process.py"
